@@ -90,7 +90,7 @@ func runC15(c *Ctx) {
 	p := c.Progs["mod"]
 	c.Rule("C15.E", "hex/text codec agreement and buffer discipline of WebsocketNetConn", 9)
 	c.Rule("C15.P", "two copy directions over the same pair, WaitGroup pairing", 4)
-	c.Rule("C15.H", "pass-through identity and streaming-path agreement", 5)
+	c.Rule("C15.H", "pass-through identity and streaming-path agreement", 6)
 	T := "(*" + bridgeConn + ".WebsocketNetConn)"
 	_ = T
 
@@ -367,6 +367,38 @@ func runC15(c *Ctx) {
 			dw += len(Calls(fn, bridgeConn+".DialWebsocket"))
 		}
 		c.Check("C15.H", "frontend:dials-websocket-bridge", p, fm.Pos(), dw == 1, "one DialWebsocket per accepted connection", fmt.Sprintf("%d DialWebsocket sites", dw))
+		// … and every dial happens for a client that is already there: in the goroutine started
+		// for an accepted connection, not ahead of time (a parked connection can die unnoticed
+		// and is then handed to a client whose bytes are lost)
+		var accept ssa.Instruction
+		for _, call := range Calls(fm, "(net.Listener).Accept") {
+			accept = call
+		}
+		late := ""
+		for _, fn := range WithClosures(fm) {
+			for _, d := range Calls(fn, bridgeConn+".DialWebsocket") {
+				own := Owner(d)
+				ok := false
+				if accept != nil {
+					if own == fm {
+						ok = Dominates(accept, d)
+					} else {
+						// the goroutine body: its go site is dominated by the Accept of the same iteration
+						EachInstr(fm, func(i ssa.Instruction) {
+							if g, isGo := i.(*ssa.Go); isGo {
+								if tgt := StaticFunc(&g.Call); tgt != nil && (tgt == own || TopFunc(own) == fm && inClosureTree(tgt, own)) && Dominates(accept, g) {
+									ok = true
+								}
+							}
+						})
+					}
+				}
+				if !ok {
+					late = p.Pos(d.Pos())
+				}
+			}
+		}
+		c.Check("C15.H", "frontend:dials-after-accept", p, fm.Pos(), late == "" && dw > 0, "the websocket to the backend is dialled in the goroutine of an accepted client connection", "a websocket to the backend is dialled at "+late+" outside the handling of an accepted client (ahead of time / in a pool): a connection that dies while parked is handed to a client, whose bytes never arrive")
 	}
 }
 
@@ -586,6 +618,13 @@ func c16Orderly(c *Ctx, p *Prog) {
 		}
 		nw++
 		tn := NamedTypeRel(t)
+		// io.Copy type-asserts io.ReaderFrom / io.WriterTo: declaring one replaces the copy loop of
+		// both bridging directions by the type's own, whose return is what triggers closeBoth
+		for _, m := range ms {
+			if m.Name() == "ReadFrom" || m.Name() == "WriteTo" {
+				c.Bad("C16.A", "copy:"+tn+":no-own-copy-loop", p, m.Pos(), tn+" declares "+m.Name()+": io.Copy hands the whole direction to it, and when it returns (e.g. as soon as its read stage sees EOF, with chunks still queued for writing) the bridging goroutine closes both connections — data sent before the close is lost")
+			}
+		}
 		// locks held across blocking I/O in any method
 		blocking := map[string]string{}
 		for _, m := range ms {
@@ -660,4 +699,14 @@ func c16Orderly(c *Ctx, p *Prog) {
 		c.Unk("C16.A", "close:wrappers", p, 0, "no net.Conn wrapper type (Read/Write methods) found in utils/tcpbridge/connection")
 	}
 	// closeBoth itself must not be conditional on a lock either: both Close calls run unconditionally inside the Once
+}
+
+// inClosureTree: inner is fn or a closure nested (transitively) in fn.
+func inClosureTree(fn, inner *ssa.Function) bool {
+	for x := inner; x != nil; x = x.Parent() {
+		if x == fn {
+			return true
+		}
+	}
+	return false
 }
